@@ -1,34 +1,38 @@
-(** Model of /repo/bitmap/mask.go: the six exported tables as [initMasks] computes them
-    (uint64 arithmetic: [1 << 64 = 0], [0 - 1] wraps to 2^64-1, [^x] is [not64]).
-    A table read [T[i]] is [nthZ T i]: [None] = index out of range (Go panics). *)
-From Coq Require Import ZArith List.
+(** Model of /repo/bitmap/mask.go: the six lookup tables filled by [initMasks]
+    (called from the package's [init]), with Go's uint64 arithmetic:
+    [1 << uint(i)] is [shl64 1 i] (0 for i = 64), [x - 1] wraps ([u64]),
+    [^x] is [not64].  A table read [T[j]] is [nthZ T j] ([None] = index out of
+    range, Go panics) — the other models of this package write [Mask j],
+    [Bit j] … (Lib/Bits.v) for these reads; Properties/C14.v proves the two agree. *)
+From Coq Require Import ZArith List Bool.
 From Low Require Import Lib.MachInt Lib.Bits Lib.BitSeq.
 Import ListNotations.
 Open Scope Z_scope.
 
-Definition zrange (n : nat) : list Z := map Z.of_nat (seq 0 n).
+(** [for i := 0; i < n; i++] as the list of the values of [i] *)
+Definition idx (n : nat) : list Z := map Z.of_nat (seq 0 n).
 
-(** [for i := 0; i < 65; i++ { Mask[i] = (1 << uint(i)) - 1; RMask[i] = ^Mask[i] }] *)
-Definition Mask_tab : list Z := map (fun i => u64 (shl64 1 i - 1)) (zrange 65).
-Definition RMask_tab : list Z := map not64 Mask_tab.
+Record mask_tables := {
+  tMask : list Z;       (* [65]uint64 *)
+  tRMask : list Z;      (* [65]uint64 *)
+  tMaskUpto : list Z;   (* [64]uint64 *)
+  tRMaskUpto : list Z;  (* [64]uint64 *)
+  tBit : list Z;        (* [64]uint64 *)
+  tRBit : list Z        (* [64]uint64 *)
+}.
 
-(** [for i := 0; i < 64; i++ { MaskUpto[i] = (1 << uint(i+1)) - 1; RMaskUpto[i] = ^MaskUpto[i];
+(** [for i := 0; i < 65; i++ { Mask[i] = (1 << uint(i)) - 1; RMask[i] = ^Mask[i] }]
+    [for i := 0; i < 64; i++ { MaskUpto[i] = (1 << uint(i+1)) - 1; RMaskUpto[i] = ^MaskUpto[i];
                                Bit[i] = 1 << uint(i); RBit[i] = ^Bit[i] }] *)
-Definition MaskUpto_tab : list Z := map (fun i => u64 (shl64 1 (i + 1) - 1)) (zrange 64).
-Definition RMaskUpto_tab : list Z := map not64 MaskUpto_tab.
-Definition Bit_tab : list Z := map (fun i => shl64 1 i) (zrange 64).
-Definition RBit_tab : list Z := map not64 Bit_tab.
+Definition initMasks : mask_tables :=
+  let m  := map (fun i => u64 (shl64 1 i - 1)) (idx 65) in
+  let mu := map (fun i => u64 (shl64 1 (i + 1) - 1)) (idx 64) in
+  let b  := map (fun i => shl64 1 i) (idx 64) in
+  {| tMask := m; tRMask := map not64 m;
+     tMaskUpto := mu; tRMaskUpto := map not64 mu;
+     tBit := b; tRBit := map not64 b |}.
 
-(** [Mask[i], RMask[i]] *)
-Definition mask_at (i : Z) : option (Z * Z) :=
-  match nthZ Mask_tab i, nthZ RMask_tab i with
-  | Some a, Some b => Some (a, b)
-  | _, _ => None
-  end.
-
-(** [MaskUpto[i], RMaskUpto[i], Bit[i], RBit[i]] *)
-Definition bit_at (i : Z) : option (Z * Z * Z * Z) :=
-  match nthZ MaskUpto_tab i, nthZ RMaskUpto_tab i, nthZ Bit_tab i, nthZ RBit_tab i with
-  | Some a, Some b, Some c, Some d => Some (a, b, c, d)
-  | _, _, _, _ => None
-  end.
+(** [Mask[j], RMask[j], MaskUpto[j], RMaskUpto[j], Bit[j], RBit[j]], each read on its own *)
+Definition mask_lookups (t : mask_tables) (j : Z) : list (option Z) :=
+  [nthZ (tMask t) j; nthZ (tRMask t) j; nthZ (tMaskUpto t) j; nthZ (tRMaskUpto t) j;
+   nthZ (tBit t) j; nthZ (tRBit t) j].
